@@ -34,6 +34,7 @@ Definition expected_call (d : dconfig) (ctx : json) (r : request) : list json :=
   match find_method d (r_method r) with
   | None => []
   | Some m =>
+      if bind_fails m then [] else
       match direct_call (md_sig m) (md_ctx m) ctx (to_pparams (r_params r)) with
       | None => []
       | Some e => let e' := match md_ctx m with CtxView true => ("<ctx>", Given ctx) :: e | _ => e end in
@@ -100,6 +101,12 @@ Definition judge03 (d : dconfig) (ctx : json) (r : request) (resp : json) : bool
   match find_method d (r_method r) with
   | None => match obj_get "error" resp with Some e => has_code MethodNotFoundError_code MethodNotFoundError_message e | None => false end
   | Some m =>
+      if bind_fails m then
+        (* an unexpected failure before the body: -32603, opaque *)
+        match obj_get "error" resp with
+        | Some e => json_equiv e (error_obj InternalError_code InternalError_message None) | None => false end
+        && leak_free resp
+      else
       if negb (binds d ctx r) then
         match obj_get "error" resp with
         | Some e => has_code InvalidParamsError_code InvalidParamsError_message e
@@ -118,6 +125,7 @@ Definition judge03 (d : dconfig) (ctx : json) (r : request) (resp : json) : bool
             match rmethod_of m ctx (r_params r), obj_get "error" resp with
             | MRan _ (ORpc x), Some e => json_equiv e (error_obj (e_code x) (e_msg x) (e_data x))
             | _, _ => false end
+        | BBindFail => false
         | BRet v => match obj_get "result" resp, obj_get "error" resp with Some x, None => json_equiv x v | _, _ => false end
         | BEnv => match obj_get "result" resp, obj_get "error" resp with Some _, None => true | _, _ => false end
         end
